@@ -15,6 +15,13 @@ CHECKS = {
    note=PROOF_NOTE + ' Rectangular matrices are covered by the correspondence and DP oracle; the Lean theorem is stated for square matrices (the shape every grader produces). '
         'IEEE rounding of non-dyadic float costs is outside the theorem (monitored within 1e-9).',
    technique='Lean 4 proof (invariants + termination measure) of a literal Munkres model; differential correspondence with exact Fractions', design='§6 C06'),
+ 'C17': dict(
+   text='The three built-in schedules and apply_attempt_based_credit are modelled over exact rationals (round(.,4) = round-half-even); proved for every attempt number and every '
+        'admissible parameter: value 1 at attempt 1, range [0,1], antitone for attempts >= 1, LinearCredit >= minimum (for 4-decimal minima; witness that the hypothesis is needed = known finding K2), '
+        'attempt clamped to >= 1, missing attempt = ConfigError, product law with ok recomputed, zero grades untouched, note added iff flag and credit != 1 and some positive grade. '
+        'Tie: exhaustive parameter grid x attempts and real String/List/SingleList graders vs the model, compared exactly.',
+   note=PROOF_NOTE + ' Floats enter only through round() and grade*credit: cases within 1e-9 of a rounding tie are counted (float_tie) and skipped; grades compared within 1e-12.',
+   technique='Lean 4 proof (monotone rounding, case analysis) + exhaustive-grid correspondence', design='§6 C17'),
 }
 NA_REASON = 'check not built yet in this round (planned: see DESIGN.md §6); not claimed until its model, theorems and correspondence exist'
 
